@@ -693,6 +693,29 @@ class Interp:
                         return x
                     return (nrm(sv.start, num(0)), nrm(sv.stop, n), num(1))
                 return BoundBuiltin(indices)
+        if isinstance(v, BoolMat):
+            if attr in ("any", "all"):
+                red = any if attr == "any" else all
+
+                def bm(i, ar, k, red=red):
+                    ax = k.get("axis", ar[0] if ar else None)
+                    if ax is None:
+                        return red(red(r) for r in v.rows)
+                    if is_num(ax) and ax.is_const() and ax.const_value() == 1:
+                        return BoolVec([red(r) for r in v.rows])
+                    if is_num(ax) and ax.is_const() and ax.const_value() == 0:
+                        return BoolVec([red(c) for c in zip(*v.rows)] if v.rows else [])
+                    raise NotInFragment(f"BoolMat.{attr}(axis={ax!r})")
+                return BoundBuiltin(bm)
+        if isinstance(v, BoolVec):
+            if attr == "any":
+                return BoundBuiltin(lambda i, ar, k: any(v.items))
+            if attr == "all":
+                return BoundBuiltin(lambda i, ar, k: all(v.items))
+            if attr == "argmax":
+                return BoundBuiltin(lambda i, ar, k: num(next((j for j, x in enumerate(v.items) if x), 0)))
+            if attr == "sum":
+                return BoundBuiltin(lambda i, ar, k: num(sum(1 for x in v.items if x)))
         if isinstance(v, Col):
             if attr in ("max", "min", "sum"):
                 return BoundBuiltin(lambda i, ar, k: {"max": _minmax("max"), "min": _minmax("min"), "sum": _b_sum}[attr](i, [v], {}))
@@ -1167,6 +1190,12 @@ class Interp:
             if isinstance(left, Arr) and (is_num(right0) or isinstance(right0, Arr)):
                 rs = right0.items if isinstance(right0, Arr) else [right0] * len(left.items)
                 return BoolVec([self.compare(x, e.ops[0], y) for x, y in zip(left.items, rs)])
+            if isinstance(left, ColT) and isinstance(right0, Arr):
+                return BoolMat([[self.compare(x, e.ops[0], y) for y in right0.items] for x in left.items])
+            if isinstance(left, Arr) and isinstance(right0, ColT):
+                return BoolMat([[self.compare(y, e.ops[0], x) for y in left.items] for x in right0.items])
+            if isinstance(left, ColT) and is_num(right0):
+                return BoolMat([[self.compare(x, e.ops[0], right0)] for x in left.items])
             if not self.compare(left, e.ops[0], right0, e):
                 return False
             return True
@@ -1209,6 +1238,15 @@ class Interp:
             a = num(int(a))
         if isinstance(b, bool):
             b = num(int(b))
+        if isinstance(op, (ast.BitAnd, ast.BitOr)) and isinstance(a, (BoolVec, BoolMat)) and type(a) is type(b):
+            f = (lambda x, y: bool(x) and bool(y)) if isinstance(op, ast.BitAnd) else (lambda x, y: bool(x) or bool(y))
+            if isinstance(a, BoolVec):
+                if len(a.items) != len(b.items):
+                    raise NotInFragment("boolean vectors of different lengths")
+                return BoolVec([f(x, y) for x, y in zip(a.items, b.items)])
+            if len(a.rows) != len(b.rows) or any(len(x) != len(y) for x, y in zip(a.rows, b.rows)):
+                raise NotInFragment("boolean matrices of different shapes")
+            return BoolMat([[f(x, y) for x, y in zip(r1, r2)] for r1, r2 in zip(a.rows, b.rows)])
         if a is NAN or b is NAN:
             return NAN
         # elementwise arithmetic of 1-D arrays with scalars / equal-length arrays (numpy broadcasting, 1-D only)
@@ -1368,6 +1406,12 @@ class Interp:
                 i = self._index(self.eval(a, fr), len(base.rows), e)
                 row = base.rows[i]
                 return row.items[self._index(self.eval(b, fr), len(row.items), e)]
+        if isinstance(base, Arr2) and len(elts) == 3:
+            a, b, c = elts
+            # candles[:, j, None]: the column as an (n, 1) array, to be broadcast against a vector
+            if isinstance(a, ast.Slice) and a.lower is None and a.upper is None and isinstance(c, ast.Constant) and c.value is None:
+                j = self._index(self.eval(b, fr), 6, e)
+                return ColT([row.items[j] for row in base.rows])
         raise NotInFragment(f"numpy indexing {norm(e)}")
 
     def e_ListComp(self, e, fr):
@@ -1467,6 +1511,13 @@ class Col:
 
     def __init__(self, items):
         self.items = items
+
+
+class ColT:
+    """A column of a 2-D array kept as an (n, 1) array: comparing it with a vector of k numbers gives an (n, k) boolean matrix."""
+
+    def __init__(self, items):
+        self.items = list(items)
 
 
 class BoolVec:
